@@ -66,7 +66,8 @@ Commit(w) == /\ mgr' = w.mgr /\ versions' = w.versions /\ ctr' = w.ctr /\ cgen' 
              /\ held' = w.held /\ links' = w.links /\ nlinks' = w.nlinks /\ accepts' = w.accepts /\ sel' = w.sel
              /\ lostq' = w.lostq /\ stopReq' = w.stopReq /\ stopped' = w.stopped /\ internal' = w.internal
 Err(w, what) == [w EXCEPT !.internal = Append(@, what)]
-Send(w, x, msg) == [w EXCEPT !.mq[Peer(x)] = Append(@, msg)]
+\* (a wormhole that is closing no longer transmits: Boss ignores send in S3_closing / S4_closed)
+Send(w, x, msg) == IF w.stopReq[x] THEN w ELSE [w EXCEPT !.mq[Peer(x)] = Append(@, msg)]
 
 \* this side's end of link i closes by its own hand (transport.loseConnection)
 CloseEnd(w, i, x) == IF w.links[i].endst[x] = "up" THEN [w EXCEPT !.links[i].endst[x] = "closing"] ELSE w
